@@ -5,6 +5,7 @@
 package mpegts
 
 import (
+	"errors"
 	"fmt"
 	"time"
 
@@ -14,6 +15,8 @@ import (
 
 // in ms, for aac flush the audio
 const aacDelay = 100
+
+var errNoAudioSpecificConfig = errors.New("tsmuxer: no usable aac AudioSpecificConfig")
 
 type aacPacketizer struct {
 	meta          *codec.AudioMeta
@@ -50,6 +53,9 @@ func (ap *aacPacketizer) prepareAsc() (err error) {
 }
 
 func (ap *aacPacketizer) Packetize(frame *codec.Frame) error {
+	if ap.audioSps == nil { // sdp 中没有可解码的 AudioSpecificConfig，无法生成 ADTS 头
+		return errNoAudioSpecificConfig
+	}
 	pts := frame.Pts * 90000 / int64(time.Second) // 90000Hz
 
 	// set fields
